@@ -855,6 +855,50 @@ def worker_kry(case, led):
                 _emit(led, rs, "expm_krylov", key, fields, rp, n > 1)
 
 
+# ========================================================================================================================= ODE solver (vendored RK23 / RK45)
+def worker_ivp(case, led):
+    """renormalizer.lib.solve_ivp as the evolution schemes call it (explicit embedded Runge-Kutta pairs, adaptive step): the returned end state solves
+    y' = f(t, y), y(t0) = y0 to the requested tolerance - for AUTONOMOUS and for explicitly TIME-DEPENDENT right-hand sides (H(t) callables reach it through the
+    variational schemes), complex vectors, forward intervals that do not start at 0"""
+    _, method, problem, n, seed, tier = case
+    import scipy.integrate
+    from renormalizer.lib import solve_ivp
+    rng = np.random.default_rng([seed, 195, n, sum(map(ord, method + problem))])
+    y0 = rng.standard_normal(n) + 1j * rng.standard_normal(n)
+    t0, t1 = (0.0, 0.9) if problem != "shifted" else (0.4, 1.1)
+    if problem == "autonomous":
+        B = rng.standard_normal((n, n)) + 1j * rng.standard_normal((n, n))
+        A = -0.2 * np.eye(n) + 0.7j * (B + B.conj().T) / np.sqrt(n)
+        f = lambda t, y: A @ y                                        # noqa: E731
+        exact = scipy.linalg.expm((t1 - t0) * A) @ y0
+    elif problem in ("diagonal-in-time", "shifted"):
+        k = np.arange(n)
+        a, b = -0.3 + 1j * (1 + k), (0.5 + 0.2j * k)
+        f = lambda t, y: (a + b * np.cos(3 * t)) * y                  # noqa: E731  explicitly time dependent, exactly solvable
+        exact = y0 * np.exp(a * (t1 - t0) + b * (np.sin(3 * t1) - np.sin(3 * t0)) / 3)
+    else:                                                              # "driven-matrix": H0 + g(t) V
+        B0 = rng.standard_normal((n, n)) + 1j * rng.standard_normal((n, n))
+        B1 = rng.standard_normal((n, n))
+        H0, V = (B0 + B0.conj().T) / np.sqrt(n), (B1 + B1.T) / np.sqrt(n)
+        f = lambda t, y: -1j * ((H0 + (1.5 * np.sin(3 * t) + 2 * t) * V) @ y)      # noqa: E731
+        exact = scipy.integrate.solve_ivp(f, (t0, t1), y0, method="DOP853", rtol=1e-12, atol=1e-14).y[:, -1]
+    rtol, atol = 1e-8, 1e-10
+    key = ("ivp", method, problem, n, seed)
+    fields = {"method": method, "time_dependent": problem != "autonomous"}
+    rp = {"method": method, "problem": problem, "n": n, "seed": seed, "t_span": [t0, t1], "rtol": rtol, "atol": atol,
+          "how": "props.C18.worker_ivp(case, Ledger()) regenerates the right-hand side and y0 from the case tuple"}
+    try:
+        sol = solve_ivp(f, (t0, t1), y0.copy(), method=method, rtol=rtol, atol=atol)
+        y = np.asarray(sol.y).reshape(n, -1)[:, -1]
+    except Exception as ex:
+        led.check(False, "post:solve_ivp:returns", "solve_ivp", f"raised {type(ex).__name__}: {ex}", key, fields, rp, n > 1)
+        return
+    err = float(np.linalg.norm(y - exact))
+    bound = 300 * (rtol * float(np.linalg.norm(exact)) + atol * np.sqrt(n))
+    led.check(err <= bound, "post:solve_ivp:end_state_within_tolerance", "solve_ivp",
+              f"{method} on {problem}: |y(t1) - exact| = {err:.3e} > {bound:.3e} (rtol {rtol}, atol {atol}, {getattr(sol, 'nfev', '?')} evaluations)", key, fields, rp, n > 1)
+
+
 # ========================================================================================================================= Davidson eigensolver
 def worker_dav(case, led):
     """renormalizer.lib.davidson as the optimisers call it (matrix-free product, diagonal preconditioner, nroots 1..3, tol 1e-12, max_cycle 100):
@@ -928,6 +972,8 @@ def worker(case, led):
         worker_kry(case, led)
     elif tag == "dav":
         worker_dav(case, led)
+    elif tag == "ivp":
+        worker_ivp(case, led)
     elif tag == "qnx":
         worker_qnx(case, led)
     elif tag == "qnr":
@@ -959,6 +1005,12 @@ def enumerate_cases(run):
                     ics = range(len(COMBOS)) if not quick else sorted({(n + len(fam) + int(cplx) + s) % 4, (n + len(fam) + int(cplx) + s + 2 + n % 2) % 4})
                     for ic in ics:
                         cases.append(("kry", fam, n, cplx, ic, s, tier))
+    # vendored ODE solver: autonomous and explicitly time-dependent right-hand sides
+    for s in seeds:
+        for method in ("RK45", "RK23"):
+            for problem in ("autonomous", "diagonal-in-time", "shifted", "driven-matrix"):
+                for n in ((1, 6) if quick else (1, 3, 6, 15)):
+                    cases.append(("ivp", method, problem, n, s, tier))
     # Davidson eigensolver (matrix-free, diagonal preconditioner, 1..3 roots)
     for s in seeds:
         for fam in ("random", "degenerate", "clustered", "dominant-diagonal"):
